@@ -509,18 +509,42 @@ class World:
                     continue
                 terms.append(r)
             return z3.And(*terms) if terms else True
+        def _fd(x):
+            # a yaql FrozenDict compares as the mapping it wraps
+            # (collections.abc.Mapping.__eq__)
+            if isinstance(x, ObjVal) and x.cls.name == 'FrozenDict' and \
+                    isinstance(x.fields.get('_d'), dict):
+                return x.fields['_d']
+            return x
+        if (isinstance(a, ObjVal) or isinstance(b, ObjVal)) and \
+                isinstance(_fd(a), dict) and isinstance(_fd(b), dict):
+            a, b = _fd(a), _fd(b)
         if isinstance(a, dict) and isinstance(b, dict):
+            # mappings of equal size (keys distinct within each): every
+            # entry of one has an equal entry in the other - whatever the
+            # order the entries were written in
             if len(a) != len(b):
                 return False
             terms = []
-            for (k1, v1), (k2, v2) in zip(a.items(), b.items()):
-                for x, y in ((k1, k2), (v1, v2)):
-                    r = self.eq_model(x, y, it)
-                    if isinstance(r, bool):
-                        if not r:
-                            return False
+            for k1, v1 in a.items():
+                alts = []
+                for k2, v2 in b.items():
+                    rk = self.eq_model(k1, k2, it)
+                    if rk is False:
                         continue
-                    terms.append(r)
+                    rv = self.eq_model(v1, v2, it)
+                    if rv is False:
+                        continue
+                    both = [S.as_bool_term(r) for r in (rk, rv)
+                            if not isinstance(r, bool)]
+                    if not both:
+                        alts = [True]
+                        break
+                    alts.append(z3.And(*both) if len(both) > 1 else both[0])
+                if not alts:
+                    return False
+                if alts != [True]:
+                    terms.append(z3.Or(*alts) if len(alts) > 1 else alts[0])
             return z3.And(*terms) if terms else True
         if isinstance(a, ObjVal) and isinstance(b, SVal):
             return a.as_val() == b.t
